@@ -8,6 +8,7 @@ from types import CodeType
 import warnings
 import functools
 
+import ast
 import builtins
 import math
 
@@ -269,6 +270,19 @@ def to_numpy(sympy_array: sympy.NDimArray) -> numpy.ndarray:
 
 def get_subscripted_symbols(expression: str) -> set:
     # track all symbols that are subscipted in here
+    if isinstance(expression, str):
+        try:
+            syntax_tree = ast.parse(expression.strip(), mode='eval')
+        except SyntaxError:
+            pass
+        else:
+            return {node.value.id
+                    for node in ast.walk(syntax_tree)
+                    if isinstance(node, ast.Subscript) and isinstance(node.value, ast.Name)}
+
+    # Not python syntax: let sympy parse it with symbol stand-ins that record whether they are subscripted. This fails
+    # (or does not terminate) if sympy inspects the arguments while parsing, i.e. in Min, Max or nested Mod, because
+    # it takes the subscriptable stand-in for a sequence.
     indexed_base_finder = IndexedBasedFinder()
     sympy.sympify(expression, locals=indexed_base_finder)
 
